@@ -1,0 +1,84 @@
+//go:build verif
+
+package goja
+
+// White-box accessors for the C05 verification harness (/verif). Add-only; compiled only with -tags verif.
+
+import (
+	"hash/maphash"
+	"math"
+)
+
+// VerifC05RawFloat builds a valueFloat from a bit pattern WITHOUT canonicalising it.
+func VerifC05RawFloat(bits uint64) Value { return valueFloat(math.Float64frombits(bits)) }
+
+// VerifC05RawInt builds a valueInt without any range check.
+func VerifC05RawInt(i int64) Value { return valueInt(i) }
+
+// VerifC05Repr returns the representation tag of a Number ('i' valueInt, 'f' valueFloat, 'o' anything else).
+func VerifC05Repr(v Value) (tag byte, i int64, bits uint64) {
+	switch x := v.(type) {
+	case valueInt:
+		return 'i', int64(x), 0
+	case valueFloat:
+		return 'f', 0, math.Float64bits(float64(x))
+	}
+	return 'o', 0, 0
+}
+
+func VerifC05IntToValue(i int64) Value      { return intToValue(i) }
+func VerifC05FloatToValue(bits uint64) Value { return floatToValue(math.Float64frombits(bits)) }
+func VerifC05FloatToInt(bits uint64) (int64, bool) {
+	return floatToInt(math.Float64frombits(bits))
+}
+func VerifC05ToNumeric(v Value) Value { return toNumeric(v) }
+func VerifC05FloatToIntClip(bits uint64) int64 {
+	return floatToIntClip(math.Float64frombits(bits))
+}
+
+// VerifC05Hash is Value.hash for Numbers (the maphash is not used by them).
+func VerifC05Hash(v Value) uint64 {
+	var h maphash.Hash
+	return v.hash(&h)
+}
+
+// VerifC05MapFinds: insert `stored` into a fresh orderedMap, look `probe` up.
+func VerifC05MapFinds(stored, probe Value) bool {
+	m := newOrderedMap(&maphash.Hash{})
+	m.set(stored, valueTrue)
+	return m.get(probe) != nil
+}
+
+// VerifC05Conv calls one of the integer conversions; ok=false when it panics (RangeError).
+func VerifC05Conv(r *Runtime, name string, v Value) (res int64, ok bool) {
+	defer func() {
+		if x := recover(); x != nil {
+			res, ok = 0, false
+		}
+	}()
+	switch name {
+	case "int8":
+		return int64(toInt8(v)), true
+	case "uint8":
+		return int64(toUint8(v)), true
+	case "int16":
+		return int64(toInt16(v)), true
+	case "uint16":
+		return int64(toUint16(v)), true
+	case "int32":
+		return int64(toInt32(v)), true
+	case "uint32":
+		return int64(toUint32(v)), true
+	case "clamp8":
+		return int64(toUint8Clamp(v)), true
+	case "length":
+		return toLength(v), true
+	case "index":
+		return int64(r.toIndex(v)), true
+	case "integer":
+		return v.ToInteger(), true
+	case "lenu32":
+		return int64(r.toLengthUint32(v)), true
+	}
+	panic("VerifC05Conv: unknown conversion " + name)
+}
